@@ -144,7 +144,10 @@ def handle (ts : List String) : Option (List String) :=
         match decList decStage stages with
         | none => some ["?parse"]
         | some sts =>
-          some (showR showIds (runPipeline sts docs) ++ bar ++ showIds (Spec.Order.runStages sts docs)
+          some (showR showIds (runPipeline sts docs) ++ bar ++
+            (match Spec.Order.runStages sts docs with
+             | some out => showIds out
+             | none => ["!Error"])                       -- rejected
             ++ bar ++ showReasons (Spec.Order.pipelineReasons sts docs))
       | "hist", [.arr ops] =>
         match decList decStoreOp ops with
